@@ -221,8 +221,8 @@ func (s secondResult) isFresh() bool {
 
 // checkSplice: stream = one complete self-delimited final message (+ optional stray bytes).
 func checkSplice(r *hk.Run, stream []byte, method, shape string, withReference bool) {
-	accepted, selfDel, complete, code, leftover := refFinal(stream, method)
-	if !accepted || !selfDel || !complete || code == 101 {
+	accepted, selfDel, complete, protoSwitch, leftover := refFinal(stream, method)
+	if !accepted || !selfDel || !complete || protoSwitch {
 		r.Count("splice.skipped-not-a-complete-message")
 		return
 	}
@@ -302,6 +302,12 @@ func spliceMatrix() []struct{ data, method, shape string } {
 		{"HTTP/1.1 103 Early Hints\r\nLink: </a>\r\n\r\nHTTP/1.1 200 OK\r\nContent-Length: 2\r\n\r\nhi", "GET", "103+cl2"},
 		{"HTTP/1.0 200 OK\r\nConnection: keep-alive\r\nContent-Length: 0\r\n\r\n", "GET", "1.0-keepalive-cl0"},
 		{"HTTP/1.1 204 No Content\r\nConnection: close\r\n\r\n", "GET", "204-close"},
+		// terminal responses with a status <= 199: never followed by reuse (readLoop: StatusCode <= 199)
+		{"HTTP/1.1 101 Switching Protocols\r\n\r\n", "GET", "101-no-upgrade"},
+		{"HTTP/1.1 101 Switching Protocols\r\nUpgrade: x\r\n\r\n", "GET", "101-upgrade-no-token"},
+		{"HTTP/1.1 099 Odd\r\nContent-Length: 0\r\n\r\n", "GET", "099-cl0"},
+		{"HTTP/1.1 000 Zero\r\nContent-Length: 2\r\n\r\nhi", "GET", "000-cl2"},
+		{"HTTP/1.1 100 Continue\r\n\r\nHTTP/1.1 101 Switching Protocols\r\n\r\n", "HEAD", "100+101-no-upgrade-head"},
 	}
 	strays := []struct{ data, name string }{
 		{"", "none"},
@@ -335,8 +341,8 @@ func runSplice(r *hk.Run, rng *hk.Rand) {
 		if rng.Chance(30) {
 			method = "HEAD"
 		}
-		accepted, selfDel, complete, code, leftover := refFinal(s, method)
-		if !accepted || !selfDel || !complete || code == 101 {
+		accepted, selfDel, complete, protoSwitch, leftover := refFinal(s, method)
+		if !accepted || !selfDel || !complete || protoSwitch {
 			continue
 		}
 		if leftover == 0 && rng.Chance(70) {
